@@ -481,6 +481,32 @@ def make_natives(E, unit):
     def n_cr_time(ex, callee, args, m):
         return VStruct("NaiveTime", [VInt(civil(inst(ex, args[0]))[3])])
 
+    def naive_field(kind):
+        def f(ex, callee, args, m):
+            v_ = _deref(ex, args[0])
+            if v_.name == "NaiveDate":
+                y, mo, d = (x.t for x in v_.items)
+                tod = C(0)
+            else:
+                y, mo, d, tod = civil(v_.items[0].t)
+            h, mi, sec, ns = time_fields(tod)
+            return VInt({"year": y, "month": mo, "month0": smt.sub(mo, C(1)), "day": d, "day0": smt.sub(d, C(1)), "hour": h, "minute": mi,
+                         "second": sec, "nanosecond": ns}[kind])
+        return f
+
+    def n_ndt_date(ex, callee, args, m):
+        y, mo, d, tod = civil(_deref(ex, args[0]).items[0].t)
+        return VStruct("NaiveDate", [VInt(y), VInt(mo), VInt(d)])
+
+    def n_ndt_time(ex, callee, args, m):
+        return VStruct("NaiveTime", [VInt(civil(_deref(ex, args[0]).items[0].t)[3])])
+
+    def n_ndt_ts(div):
+        def f(ex, callee, args, m):
+            t = _deref(ex, args[0]).items[0].t
+            return VInt(smt.idiv(t, C(div)) if div != 1 else t)
+        return f
+
     def n_date_naive(ex, callee, args, m):
         y, mo, d, tod = civil(inst(ex, args[0]))
         return VStruct("NaiveDate", [VInt(y), VInt(mo), VInt(d)])
@@ -556,6 +582,18 @@ def make_natives(E, unit):
         (N(r"^Option::<NaiveTime>::(?:unwrap|expect)$"), n_expect),
         (N(r"^Option::<chrono::DateTime<Utc>>::map::<"), n_opt_map),
         (N(r"^chrono::DateTime::<Utc>::time$"), n_cr_time),
+        (N(r"^<(?:NaiveDateTime|NaiveDate) as Datelike>::(year|month|month0|day|day0)$"), lambda ex, c, a, m: naive_field(m.group(1))(ex, c, a, m)),
+        (N(r"^<NaiveDateTime as Timelike>::(hour|minute|second|nanosecond)$"), lambda ex, c, a, m: naive_field(m.group(1))(ex, c, a, m)),
+        (N(r"^NaiveDateTime::date$"), n_ndt_date),
+        (N(r"^NaiveDateTime::time$"), n_ndt_time),
+        (N(r"^chrono::DateTime::<Utc>::naive_utc$"), lambda ex, c, a, m: VStruct("NaiveDateTime", [VInt(inst(ex, a[0]))])),
+        (N(r"^std::ops::RangeInclusive::<i(?:32|64)>::new$"), lambda ex, c, a, m: VStruct("RangeInclusive", [a[0], a[1]])),
+        (N(r"^std::ops::RangeInclusive::<i(?:32|64)>::contains::<i(?:32|64)>$"),
+         lambda ex, c, a, m: VBool(smt.and_(smt.le(_deref(ex, a[0]).items[0].t, _deref(ex, a[1]).t), smt.le(_deref(ex, a[1]).t, _deref(ex, a[0]).items[1].t)))),
+        (N(r"^std::ops::Range::<i(?:32|64)>::contains::<i(?:32|64)>$"),
+         lambda ex, c, a, m: VBool(smt.and_(smt.le(_deref(ex, a[0]).items[0].t, _deref(ex, a[1]).t), smt.lt(_deref(ex, a[1]).t, _deref(ex, a[0]).items[1].t)))),
+        (N(r"^Option::<i64>::is_none$"), lambda ex, c, a, m: VBool(smt.not_(_deref(ex, a[0]).some))),
+        (N(r"^Option::<i64>::is_some$"), lambda ex, c, a, m: VBool(_deref(ex, a[0]).some)),
         (N(r"^Option::<&str>::unwrap_or$"), n_unwrap_or),
         (N(r"^chrono::DateTime::<Utc>::format$"), n_cr_format),
         (N(r"^<DelayedFormat<StrftimeItems<'_>> as ToString>::to_string$"), n_df_to_string),
